@@ -569,18 +569,27 @@ func (h *fsHandler) compressFileNolock(f *os.File, fileInfo os.FileInfo, filePat
 	if err1 := zw.Flush(); err == nil {
 		err = err1
 	}
+	// the end of the gzip stream (the Close in Release is a no-op after this one)
+	if err1 := zw.Close(); err == nil {
+		err = err1
+	}
 	compress.ReleaseStacklessGzipWriter(zw, compress.CompressDefaultCompression)
-	zf.Close()
+	if err1 := zf.Close(); err == nil {
+		err = err1
+	}
 	f.Close()
+	if err == nil {
+		err = os.Chtimes(tmpFilePath, time.Now(), fileInfo.ModTime())
+	}
+	if err == nil {
+		err = os.Rename(tmpFilePath, compressedFilePath)
+	}
 	if err != nil {
-		return nil, fmt.Errorf("error when compressing file %q to %q: %s", filePath, tmpFilePath, err)
-	}
-	if err = os.Chtimes(tmpFilePath, time.Now(), fileInfo.ModTime()); err != nil {
-		return nil, fmt.Errorf("cannot change modification time to %s for tmp file %q: %s",
-			fileInfo.ModTime(), tmpFilePath, err)
-	}
-	if err = os.Rename(tmpFilePath, compressedFilePath); err != nil {
-		return nil, fmt.Errorf("cannot move compressed file from %q to %q: %s", tmpFilePath, compressedFilePath, err)
+		// the copy could be created but not written or installed (full file system, quota):
+		// as when it cannot be created, the file itself is served
+		os.Remove(tmpFilePath)
+		hlog.SystemLogger().Warnf("cannot save compressed file %q: %s", compressedFilePath, err)
+		return nil, errNoCreatePermission
 	}
 	return h.newCompressedFSFile(compressedFilePath)
 }
